@@ -279,6 +279,32 @@ impl Space {
 			r.extend_from_slice(&[9u8; 32]);
 			regs.push((tix("OutputBitmapSegmentResponse::read"), r, 0, None, "bitmap_idx_2^62_height_1".into()));
 		}
+		{
+			// c308755f7: identifier {height 1, idx 2^62 + 1}, nothing else: the leaf offset 2^63 + 2 wrapped the position
+			// arithmetic and Segment::root popped an empty stack
+			let mut b = vec![1u8];
+			b.extend_from_slice(&((1u64 << 62) + 1).to_be_bytes());
+			b.extend_from_slice(&[0u8; 24]);
+			for t in ["Segment<OutputIdentifier>::read", "Segment<RangeProof>::read", "Segment<TxKernel>::read"].iter() {
+				regs.push((tix(t), b.clone(), crate::targets::aux_explicit(19, false), None, "segment_idx_2^62+1_height_1".into()));
+			}
+			// 55e852c38 / 6e9e47afe: JSON form of a transaction (foreign push_transaction): an offset that is not hex,
+			// a range proof longer than 675 bytes
+			let jt = tix("json::Transaction");
+			regs.push((jt, br#"{"offset":"0"}"#.to_vec(), 0, None, "json_offset_odd_hex".into()));
+			if let Some((_, sd)) = seeds.iter().find(|(c, s)| *c == Ct::Auto && s.target == "json::Transaction") {
+				let text = String::from_utf8_lossy(&sd.bytes).into_owned();
+				if let Some(f) = sd.fields.iter().find(|f| f.kind == "js" && f.w > 1000) {
+					let proof = &text[f.off + 1..f.off + f.w - 1];
+					let long = format!("{}\"{}{}\"{}", &text[..f.off], proof, proof, &text[f.off + f.w..]);
+					regs.push((jt, long.into_bytes(), 0, None, "json_proof_twice".into()));
+				}
+				if let Some(f) = sd.fields.first() {
+					let bad = format!("{}\"zz\"{}", &text[..f.off], &text[f.off + f.w..]);
+					regs.push((jt, bad.into_bytes(), 0, None, "json_offset_non_hex".into()));
+				}
+			}
+		}
 		for (ct, sd) in seeds.iter() {
 			if *ct == Ct::Auto && sd.target.contains("Segment") && !sd.target.contains("Bitmap") {
 				if let Some(f) = sd.fields.iter().find(|f| f.kind == "u8") {
